@@ -20,6 +20,7 @@
     obs C17 <rounding> <avail w> <avail h> T <tree> L.. L.. (TaffyTree) L.. L.. (low-level driver)
             X L.. L.. (TaffyTree, exact keys) L.. L.. (driver, exact keys) [F L.. L.. (cache-free)] [Q L.. L.. (exact keys + quiet hits)]
 -/
+import TaffyVerif.Drv.C02
 import TaffyVerif.Drv.TreeParse
 
 namespace DrvHist
@@ -205,16 +206,38 @@ def c17 (ws : List String) : String :=
       else "ok"
   | _ => "parse-error"
 
+/-- relayout stream: `obs C17R n <TaffyTree LL> <low-level driver LL>` after layout · edits · layout -/
+def c17r (ws : List String) : String :=
+  match ws with
+  | n :: rest =>
+    let parsed : Option (Nat × LL × LL) := do
+      let n ← parseNat n
+      let (a, ts) ← pLL rest
+      let (b, ts) ← pLL ts
+      if ts.isEmpty then pure (n, a, b) else none
+    match parsed with
+    | none => "parse-error"
+    | some (n, a, b) => if a.1.length == n && llEq a b then "ok" else "bad c17-drivers-differ-after-edit"
+  | _ => "parse-error"
+
 def stepC17 (ws : List String) : String :=
   match ws with
   | "obs" :: "C17" :: rest => c17 rest
+  | "obs" :: "C17R" :: rest => c17r rest
   | ["quiet", "C17", k] => s!"ok {k}"
   | ["panicked", "C17", "1"] => "ok panic"
   | "panicked" :: _ => "bad c17-drivers-differ"
   | _ => "bad-request"
 
 def handlerC01 : Handler := { σ := Unit, init := (), step := fun s ws => (s, stepC01 ws) }
-def handlerC16 : Handler := { σ := Unit, init := (), step := fun s ws => (s, stepC16 ws) }
+/-- C16 also replays, on the cache model, the queries a pass made of each node's cache (`cache new|get|store …`, the
+C02 protocol): a lookup the implementation misses and the model hits (or the reverse) is a difference -/
+def handlerC16 : Handler :=
+  { σ := DrvC02.St, init := DrvC02.init,
+    step := fun s ws =>
+      match ws with
+      | "cache" :: rest => DrvC02.step s rest
+      | _ => (s, stepC16 ws) }
 def handlerC17 : Handler := { σ := Unit, init := (), step := fun s ws => (s, stepC17 ws) }
 
 end DrvHist
